@@ -64,7 +64,7 @@ class Pkg:
     return True
 
 
-def flatten(pkg: Pkg, mod, fname, kernels_by_mod, consts=None, conds=None, depth=0, stack=None, out=None, rename=None):
+def flatten(pkg: Pkg, mod, fname, kernels_by_mod, consts=None, conds=None, depth=0, stack=None, out=None, rename=None, given=()):
   out = [] if out is None else out
   conds = conds or []
   stack = stack or []
@@ -85,7 +85,7 @@ def flatten(pkg: Pkg, mod, fname, kernels_by_mod, consts=None, conds=None, depth
   a = fn.args
   defaults = dict(zip([p.arg for p in a.args][len(a.args) - len(a.defaults):], a.defaults))
   for p, dv in defaults.items():
-    if p not in consts and isinstance(dv, ast.Constant):
+    if p not in consts and p not in given and isinstance(dv, ast.Constant):   # a default applies only when the caller passed nothing
       consts[p] = dv.value
   local_src = {}
 
@@ -120,6 +120,15 @@ def flatten(pkg: Pkg, mod, fname, kernels_by_mod, consts=None, conds=None, depth
       ins, outs = kw.get("inputs"), kw.get("outputs")
       ilist = [rn(ast.unparse(x)) for x in ins.elts] if isinstance(ins, (ast.List, ast.Tuple)) else []
       olist = [rn(ast.unparse(x)) for x in outs.elts] if isinstance(outs, (ast.List, ast.Tuple)) else []
+
+      def argtext(x):
+        """ordered argument text: literals as `const:<v>`, host parameters/locals with a statically known value as `<name>=<v>`"""
+        if isinstance(x, ast.Constant):
+          return f"const:{x.value!r}"
+        if isinstance(x, ast.Name) and x.id in consts:
+          return f"{x.id}={consts[x.id]!r}"
+        return " ".join(rn(ast.unparse(x)).split())
+      alist = [argtext(x) for x in (list(ins.elts) if isinstance(ins, (ast.List, ast.Tuple)) else []) + (list(outs.elts) if isinstance(outs, (ast.List, ast.Tuple)) else [])]
       kname = None
       if isinstance(kexpr, ast.Name):
         kname = kexpr.id
@@ -128,7 +137,7 @@ def flatten(pkg: Pkg, mod, fname, kernels_by_mod, consts=None, conds=None, depth
       elif isinstance(kexpr, ast.Attribute):
         kname = ast.unparse(kexpr)
       key = graph.resolve_kernel({"module": mod, "kernel_expr": kname, "host": fname}, kernels_by_mod, None)
-      out.append({"ev": "launch", "kernel": key or f"?{mod}.{kname}", "host": f"{mod}.{fname}", "line": c.lineno, "conds": list(conds), "inputs": ilist, "outputs": olist})
+      out.append({"ev": "launch", "kernel": key or f"?{mod}.{kname}", "host": f"{mod}.{fname}", "line": c.lineno, "conds": list(conds), "inputs": ilist, "outputs": olist, "args": alist})
       return
     if isinstance(c.func, ast.Attribute) and c.func.attr in ("zero_", "fill_"):
       out.append({"ev": "hostwrite", "field": rn(ast.unparse(c.func.value)), "host": f"{mod}.{fname}", "line": c.lineno, "conds": list(conds), "how": c.func.attr})
@@ -168,7 +177,8 @@ def flatten(pkg: Pkg, mod, fname, kernels_by_mod, consts=None, conds=None, depth
           cc[k.arg] = k.value.value
         elif k.arg and isinstance(k.value, ast.Name) and k.value.id in consts:
           cc[k.arg] = consts[k.value.id]
-      flatten(pkg, tgt[0], tgt[1], kernels_by_mod, cc, conds, depth + 1, stack, out, rr)
+      given = set(pnames[: len(c.args)]) | {k.arg for k in c.keywords if k.arg}
+      flatten(pkg, tgt[0], tgt[1], kernels_by_mod, cc, conds, depth + 1, stack, out, rr, given)
 
   def calls_in(node):
     cs = [n for n in ast.walk(node) if isinstance(n, ast.Call)]
@@ -191,14 +201,31 @@ def flatten(pkg: Pkg, mod, fname, kernels_by_mod, consts=None, conds=None, depth
           walk(s.orelse, conds)
         else:
           t = cond_text(s.test)
+          # constant propagation is path-insensitive: after a branch on an unknown condition a name keeps a known value only
+          # if BOTH branches leave it with the same one
+          before = dict(consts)
           walk(s.body, conds + [t])
+          after_body = dict(consts)
+          consts.clear(); consts.update(before)
           walk(s.orelse, conds + ["not (" + t + ")"])
+          after_else = dict(consts)
+          consts.clear(); consts.update({k: v for k, v in after_body.items() if k in after_else and after_else[k] == v and type(after_else[k]) is type(v)})
           # `if c: ...; return` guards everything that follows in this function
           if s.body and isinstance(s.body[-1], ast.Return) and not s.orelse:
             conds = conds + ["not (" + t + ")"]
         continue
       if isinstance(s, (ast.For, ast.While)):
+        before = dict(consts)
+        # names assigned anywhere in the loop body are unknown inside it (a later iteration sees the earlier one's value) and after it
+        for n in ast.walk(s):
+          if isinstance(n, ast.Assign):
+            for tg in n.targets:
+              for nn in ast.walk(tg):
+                if isinstance(nn, ast.Name):
+                  consts.pop(nn.id, None)
+                  before.pop(nn.id, None)
         walk(s.body, conds + ["loop:" + " ".join(ast.unparse(s.iter if isinstance(s, ast.For) else s.test).split())[:60]])
+        consts.clear(); consts.update(before)
         continue
       if isinstance(s, ast.With):
         walk(s.body, conds)
@@ -309,6 +336,20 @@ def emit_lean(res):
       body.append(",\n".join(rows[ci: ci + 150]))
       body.append("]")
     body.append(f"def {nm} : List Event := " + " ++ ".join(chunks))
+  # side table (same indexing as the event list): ORDERED launch arguments (inputs then outputs) — pins argument order, literal
+  # scalars (`const:False`) and statically known host parameters (`flg_subtract=False`); [] for host writes/copies
+  for entry, evs in res.items():
+    nm = entry.replace(".", "_")
+    arows = ["  [" + ", ".join(str(nid(a)) for a in (e.get("args", []) if e["ev"] == "launch" else [])) + "]" for e in evs]
+    chunks = []
+    for ci in range(0, max(len(arows), 1), 150):
+      cn = f"{nm}_args_{ci // 150}"
+      chunks.append(cn)
+      body.append(f"def {cn} : List (List Nat) := [")
+      body.append(",\n".join(arows[ci: ci + 150]))
+      body.append("]")
+    body.append(f"/-- ordered launch arguments of `{nm}` (index = position in the event list) -/")
+    body.append(f"def {nm}_args : List (List Nat) := " + " ++ ".join(chunks))
   ordered = [k for k, _ in sorted(names.items(), key=lambda kv: kv[1])]
   nchunks = []
   for ci in range(0, len(ordered), 150):
